@@ -78,6 +78,44 @@ pub fn mangle(f: &mut Vec<u8>, cfg: &FaultCfg, rng: &mut Rng, st: &mut FaultStat
         }
         st.hit("misdeliver");
     }
+    if cfg.ipvary_pm > 0 && rng.below(1000) < cfg.ipvary_pm && f.len() >= 34 {
+        // a middlebox / odd sender: header fields that carry no meaning for the responder
+        let et = ((f[12] as u16) << 8) | f[13] as u16;
+        if et == ET_IP4 {
+            let ihl = (f[14] & 0x0f) as usize * 4;
+            if ihl >= 20 && 14 + ihl <= f.len() {
+                match rng.below(4) {
+                    0 => {
+                        let v = *rng.pick(&[0x0000u16, 0x2000, 0x8000, 0x6000, 0xa000, 0x2001, 0x00b9, 0xe000]);
+                        f[20..22].copy_from_slice(&v.to_be_bytes());
+                    }
+                    1 => f[15] = rng.u8(),
+                    2 => {
+                        let v = rng.u16();
+                        f[18..20].copy_from_slice(&v.to_be_bytes());
+                    }
+                    _ => f[22] = *rng.pick(&[0u8, 1, 255]),
+                }
+                f[24] = 0;
+                f[25] = 0;
+                let c = inet_csum(&f[14..14 + ihl]);
+                f[24..26].copy_from_slice(&c.to_be_bytes());
+                st.hit("ip-header-variation");
+            }
+        } else if et == ET_IP6 && f.len() >= 54 {
+            match rng.below(3) {
+                0 => {
+                    let b = rng.bytes(3);
+                    f[14] = 0x60 | (b[0] & 0x0f);
+                    f[15] = b[1];
+                    f[16] = b[2];
+                }
+                1 => f[17] = rng.u8(),
+                _ => f[21] = *rng.pick(&[0u8, 1, 255]),
+            }
+            st.hit("ip-header-variation");
+        }
+    }
     if cfg.corrupt_pm > 0 && rng.below(1000) < cfg.corrupt_pm {
         let n = rng.range(1, 3);
         for _ in 0..n {
